@@ -818,6 +818,11 @@ getfn (int writeflg)
   if (*inptr == NL)
     {
       P_NOFNAME = TRUE;
+      if (strlen (P_FNAME) + 1 >= MAXFNAME)
+        {
+          ED_OUTPUT (ED_DEST, "File name too long.\n");
+          return (NULL);
+        }
       file[0] = '/';
       strcpy (file + 1, P_FNAME);
     }
@@ -828,7 +833,14 @@ getfn (int writeflg)
 
       cp = file;
       while (*inptr && *inptr != NL && *inptr != SP && *inptr != HT)
-        *cp++ = *inptr++;
+        {
+          if (cp >= file + MAXFNAME - 1)
+            {
+              ED_OUTPUT (ED_DEST, "File name too long.\n");
+              return (NULL);
+            }
+          *cp++ = *inptr++;
+        }
       *cp = '\0';
 
     }
@@ -852,8 +864,13 @@ getfn (int writeflg)
   file2 = check_valid_path (file, current_editor, "ed_start", writeflg);
   if (!file2)
     return (NULL);
-  strncpy (file, file2, MAXFNAME - 1);
-  file[MAXFNAME - 1] = 0;
+  if (strlen (file2) >= MAXFNAME)
+    {
+      /* never continue with a truncated (= different) path than the one approved */
+      ED_OUTPUT (ED_DEST, "File name too long.\n");
+      return (NULL);
+    }
+  strcpy (file, file2);
 
   if (strlen (file) == 0)
     {
